@@ -149,6 +149,17 @@ func init() {
 		keyEq := And(Eq(IfTag(k), IfTag(q)), Or(Eq(IfRef(k), IfRef(q)), And(Eq(IfTag(q), strTag), Eq(Select(bh, IfRef(k)), Select(bh, IfRef(q))))))
 		return e.vc.Define("ctxv", Ite(And(Eq(IfTag(a[0].(*Term)), IntLit(e.P.symbolID("tid.context.valueCtx"))), keyEq), v, other)), true
 	}
+	goModels["unicode/utf16.Encode"] = func(e *Exec, c *ssa.CallCommon, a []Val, in ssa.Instruction) (Val, bool) {
+		e.trust("unicode/utf16.Encode is the uninterpreted function utf16.arr / utf16.len of the rune contents (at most two units per rune)")
+		rs := a[0].(*Term)
+		arr := e.backingCanon(rs, types.Typ[types.Rune])
+		r := e.allocRef("utf16")
+		ln := e.vc.Define("nunits", App("utf16.len", BV(64), arr, SlOff(rs), SlLen(rs)))
+		e.vc.Assume(True, And(SGe(ln, bv64zero), SLe(ln, BVAdd(SlLen(rs), SlLen(rs)))))
+		n, hs := elemHeap(types.Typ[types.Uint16])
+		e.heapSet(n, Store(e.heapGet(n, hs), r, App("utf16.arr", ArraySort(BV(64), BV(16)), arr, SlOff(rs), SlLen(rs))))
+		return MkSlice(r, bv64zero, ln, ln), true
+	}
 	goModels["(hash.Hash).Size"] = func(e *Exec, c *ssa.CallCommon, a []Val, in ssa.Instruction) (Val, bool) {
 		return App("hsize", BV(64), IfRef(a[0].(*Term))), true
 	}
